@@ -18,7 +18,8 @@ CHECKS = {
             "tables, compared with an independent dense sum of Kronecker products",
             "Randomised + structured term tables over mixed basis kinds; every case is built with qr, Hopcroft-Karp and "
             "Hungarian and compared entry-wise with the dense reference, then walked through random adjacent swaps with "
-            "each decomposition algorithm. Held on the executions observed; evidence lists input classes and worst errors.",
+            "each decomposition algorithm; every twelfth case rebuilds the same term objects in a model that partitions "
+            "the same DoFs into sites differently. Held on the executions observed; evidence lists input classes and worst errors.",
             "local matrices from BasisSet.op_mat (judged by C16); dims <= 1024; uint16 table limits out of reach",
             "DESIGN.md section 3 / C01"),
     "C02": ("exploration",
